@@ -339,7 +339,7 @@ impl<'a> G<'a> {
                         _ => format!("{}({}, {})", f, self.r.pick(&["A", "1", "ID(B)"]), self.r.pick(&["2", "C", "(1, 2)"])),
                     }
                 }
-                8 => self.r.pick(&["+", "-", "*", ";", "{", "}", "[", "]", ".", "?", ":", "=", "<", ">", "<=", "<<", "->", "::", "@", "&&", "!"]).to_string(),
+                8 => self.r.pick(&["+", "-", "*", ";", "{", "}", "[", "]", ".", "?", ":", "=", "<", ">", "<=", "<<", "->", "::", "@", "&&", "!", "#", "# define A 3", "# endif", "##", "#if 0"]).to_string(),
                 9 => "\"s t\"".to_string(),
                 10 => "defined".to_string(),
                 11 => "ONE PAR".to_string(),
@@ -402,6 +402,8 @@ impl<'a> G<'a> {
             8 => format!("#elif 1{e}flip{i}{e}", e = e, i = idx),
             9 => format!("#ifndef R_G{e}#define R_G{e}r1{e}#include \"{n}\"{e}r2{e}#endif{e}", e = e, n = name),
             10 => format!("#if 0{e}dead{i}{e}", e = e, i = idx),
+            // `#pragma once` in a group that is not selected must not mark the file
+            12 => format!("#if 0{e}#pragma once{e}#pragma bogus{e}#endif{e}p{i} A{e}", e = e, i = idx),
             _ => String::new(),
         };
         (name, body)
@@ -513,6 +515,7 @@ impl<'a> G<'a> {
                         16 => 7,
                         17 => if self.r.chance(1, 2) { 8 } else { 10 },
                         18 => 9,
+                        19 if self.r.chance(1, 2) => 12,
                         _ => 11,
                     };
                     self.kinds.add(&format!("include-kind:{}", kind));
@@ -520,7 +523,7 @@ impl<'a> G<'a> {
                         main.push_str(&self.directive("include", "\"missing.h\""));
                     } else {
                         let (name, body) = self.header(kind, files.len());
-                        let twice = matches!(kind, 2 | 3) && self.r.chance(2, 3);
+                        let twice = matches!(kind, 2 | 3 | 12) && self.r.chance(2, 3);
                         let spelled = if self.r.chance(1, 3) { format!("<{}>", name) } else { format!("\"{}\"", name) };
                         main.push_str(&self.directive("include", &spelled));
                         if twice {
@@ -668,6 +671,21 @@ impl<'a> G<'a> {
     /// very deep nesting
     pub fn deep_case(&mut self, n: usize) -> RawCase {
         self.eol = "\n";
+        if self.r.chance(1, 8) {
+            // many sequential includes: `include_depth` must return to 0 after each
+            let mut main = String::new();
+            for i in 0..(n + 200) {
+                main.push_str("#include \"e.h\"\n");
+                if i % 50 == 0 {
+                    main.push_str(&format!("s{}\n", i));
+                }
+            }
+            self.kinds.add("raw-many-includes");
+            return RawCase {
+                defs: Vec::new(),
+                files: vec![("main.rssl".to_string(), main), ("e.h".to_string(), "#ifdef A\nx\n#endif\n".to_string())],
+            };
+        }
         let mut main = String::from("#define A 1\n");
         let mut closers: Vec<String> = Vec::new();
         for i in 0..n {
